@@ -38,6 +38,9 @@ def replRangeIn (d : Node) : Step → Option (Nat × Nat × Slice)
   | .removeMark f t _ => match d.slice f t with
     | .ok old => some (f, t, old)
     | .error _ => none
+  | .addNodeMark pos _ => some (pos, pos + 1, ⟨[], 0, 0⟩)
+  | .removeNodeMark pos _ => some (pos, pos + 1, ⟨[], 0, 0⟩)
+  | .attr pos _ _ => some (pos, pos + 1, ⟨[], 0, 0⟩)
   | s => replRange s
 
 def handleCommute (st : St) (op : String) (j : Json) : Option (D (St × Json)) :=
